@@ -292,6 +292,10 @@ func variants(b behav.Behaviour, mode string, seed int64, idx int) []Profile {
 		if hasInt {
 			out = append(out, Profile{Str: StrProfileNames[h%len(StrProfileNames)], Int: "edge", Seed: seed})
 		}
+		if behHas(b, `"t":"f64"`) {
+			// floats that need the full float64 precision to survive Call.String()
+			out = append(out, Profile{Str: "ascii", Int: "id", Seed: seed, Float: "precise"})
+		}
 		return out
 	}
 	few := !behav.Thorough() || behav.EnvInt("VERIF_FEW_VARIANTS", 0) == 1
@@ -308,12 +312,19 @@ func variants(b behav.Behaviour, mode string, seed int64, idx int) []Profile {
 			// differently in another base (010, 0644, -011)
 			second.Int, second.Zeros = "ten", true
 		}
+		if hasFloat {
+			second.Float = "precise"
+		}
 		out = append(out, Profile{Str: "ascii", Int: "id", Style: h % NStyles, Seed: seed}, second)
 	}
 	if !few && (hasInt || hasFloat) {
 		out = append(out, Profile{Str: "ascii", Int: "ten", Style: h % NStyles, Seed: seed, Zeros: true},
 			Profile{Str: "ascii", Int: "ten", Style: (h + 2) % NStyles, Seed: seed, Zeros: true},
 			Profile{Str: "ascii", Int: "edge", Style: (h + 1) % NStyles, Seed: seed, Zeros: true})
+		if hasFloat {
+			out = append(out, Profile{Str: "ascii", Int: "id", Style: (h + 4) % NStyles, Seed: seed, Float: "precise"},
+				Profile{Str: "ascii", Int: "ten", Style: h % NStyles, Seed: seed, Zeros: true, Float: "precise"})
+		}
 	}
 	if hasStr {
 		for i, sp := range StrProfileNames[1:] {
